@@ -537,6 +537,10 @@ package device
 //@   let isKeyAx := has(d.config.KeyMappings[d.mapping].Analog[ie.Source.Name], ie.Event.Code) && a.MappingType == config.AnalogKeySim
 //@   let sP := int64(a.Note) + 12 * int64(d.octave) + int64(d.semitone)
 //@   let sN := int64(a.NoteNeg) + 12 * int64(d.octave) + int64(d.semitone)
+// progress for a signed key axis (its position is not rescaled after the dedup, so the local at any return is the value the
+// switch sees): an accepted position at or beyond +50 % with nothing tracked at all DOES send (the Note On); the clauses below
+// are about the processed event and would be silent about a change that returns before the switch
+//@   ensures [C08] isKeyAx && local(analogOk) && local(canBeNegative) && !(d.lastAnalogValue[ie.Source.Name][ie.Event.Code] == lav0) && !old(d.ccLearning) && local(value) >= 0.5 && old(empty(d.analogNoteTracker)) && sP >= 0 && sP <= 127 ==> outLen != old(outLen)
 //@   ensures [C08] isKeyAx && identifier != identifierNeg && !(old(has(d.analogNoteTracker, identifier)) && old(has(d.analogNoteTracker, identifierNeg))) ==> !(has(d.analogNoteTracker, identifier) && has(d.analogNoteTracker, identifierNeg))
 //@   ensures [C08] isKeyAx && identifier != identifierNeg && local(value) >= 0.5 && !old(has(d.analogNoteTracker, identifier)) && sP >= 0 && sP <= 127 ==> out[old(outLen)] == mkev(0x90 | chP, byte(sP), 64) && has(d.analogNoteTracker, identifier) && d.analogNoteTracker[identifier] == mkarr(byte(sP), chP)
 //@   ensures [C08] isKeyAx && identifier != identifierNeg && local(value) >= 0.5 && old(has(d.analogNoteTracker, identifier)) ==> outLen == old(outLen) + (if old(has(d.analogNoteTracker, identifierNeg)) then 1 else 0) && d.analogNoteTracker[identifier] == old(d.analogNoteTracker[identifier])
@@ -614,7 +618,14 @@ package device
 //@   && c.Defaults.Channel >= 1 && c.Defaults.Channel <= 16 && c.Defaults.Velocity >= 1 && c.Defaults.Velocity <= 127
 //@   && modeOK(c.CollisionMode)
 
+// devices share no mutable state (C16, "what one device does never changes another device's output"): every mutable
+// container of a new device - including the per-channel inner maps - is allocated by this very call
+//@ pred devFresh(d *Device) := fresh(d.noteTracker) && fresh(d.analogNoteTracker) && fresh(d.keyTracker) && fresh(d.actionTracker) && fresh(d.ccZeroed)
+//@   && fresh(d.activeNotesCounter) && (forall c byte :: c < 16 ==> fresh(d.activeNotesCounter[c]))
+//@   && fresh(d.externalNoteTracker) && (forall c byte :: c < 16 ==> fresh(d.externalNoteTracker[c]))
+//@   && fresh(d.lastAnalogValue) && fresh(d.eventProcessMutex) && fresh(d.externalTrackerMutex)
 //@ func NewDevice
+//@   ensures [C16] forall p *Device :: p != nil && pointsTo(p, result) ==> devFresh(p)
 //@   requires cfgOK(cfg.Config) && cfgRanges(cfg.Config) && cfgDz(cfg.Config)
 //@   requires forall ch byte, n byte :: !sounding[ch][n]
 //@   ensures [C04] result.octave == int8(cfg.Config.Defaults.Octave) && result.semitone == int8(cfg.Config.Defaults.Semitone)
@@ -628,6 +639,9 @@ package device
 //@   loop 6 invariant [C05] lastAnalogValue != nil && (forall sub string :: visited(sub) ==> has(lastAnalogValue, sub) && vals(lastAnalogValue)[sub] != nil)
 //@   ensures [C17] forall p *Device :: p != nil && pointsTo(p, result) ==> extOK(p)
 //@   loop 3 invariant [C17] inmap != nil && i <= 16 && (forall c byte :: c < i ==> has(inmap, c) && inmap[c] != nil)
+//@   loop 3 invariant [C16] fresh(inmap) && (forall c byte :: c < i ==> fresh(inmap[c]))
+//@   loop 1 invariant [C16] fresh(activeNoteCounter) && (forall c byte :: c < ch ==> fresh(activeNoteCounter[c]))
+//@   loop 2 invariant [C16] fresh(activeNoteCounter) && fresh(t) && (forall c byte :: c < ch ==> fresh(activeNoteCounter[c]))
 //@   loop 1 invariant ch <= 16 && activeNoteCounter != nil
 //@   loop 1 invariant forall c byte :: c < ch ==> has(activeNoteCounter, c) && activeNoteCounter[c] != nil && allocated(activeNoteCounter[c])
 //@   loop 1 invariant forall c1 byte, c2 byte :: c1 < ch && c2 < ch && c1 != c2 ==> activeNoteCounter[c1] != activeNoteCounter[c2]
